@@ -11,6 +11,49 @@ import (
 
 // ---------------------------------------------------------------- function
 
+// externKey: "pkg.F" if call is a call of a declared external function.
+func (c *fnCtx) externKey(call *ast.CallExpr) string {
+	if sel, ok := call.Fun.(*ast.SelectorExpr); ok {
+		if id, ok := sel.X.(*ast.Ident); ok && id.Obj == nil {
+			k := id.Name + "." + sel.Sel.Name
+			if c.g.externs[k] {
+				return k
+			}
+		}
+	}
+	return ""
+}
+
+// isOracleAppend: x := append(y, ...) / x = append(y, ...) with x not y: the run time decides
+// where the result lives and what its capacity is.
+func oracleAppend(st *ast.AssignStmt) *ast.CallExpr {
+	if len(st.Lhs) != 1 || len(st.Rhs) != 1 {
+		return nil
+	}
+	call, ok := st.Rhs[0].(*ast.CallExpr)
+	if !ok {
+		return nil
+	}
+	id, ok := call.Fun.(*ast.Ident)
+	if !ok || id.Name != "append" || id.Obj != nil || len(call.Args) < 2 {
+		return nil
+	}
+	if src(st.Lhs[0]) == src(call.Args[0]) {
+		return nil
+	}
+	return call
+}
+
+func (c *fnCtx) extra(key, name string) *fnVar {
+	if v, ok := c.extras[key]; ok {
+		return v
+	}
+	v := c.newVar(name, &fnType{k: "raw", name: "?"}, "extra")
+	c.extras[key] = v
+	c.fn.extras = append(c.fn.extras, &fnExtra{key: key, name: v.name})
+	return v
+}
+
 type fnScan struct {
 	fieldsUsed map[string]bool
 	fieldsMut  map[string]bool
@@ -88,6 +131,7 @@ func (c *fnCtx) function() {
 
 	// ---- summary of the body: fields used / assigned, logs, zero values
 	sc := &fnScan{fieldsUsed: map[string]bool{}, fieldsMut: map[string]bool{}}
+	var needExtras [][2]string
 	isRecvIdent := func(e ast.Expr) bool {
 		id, ok := e.(*ast.Ident)
 		return ok && fn.recvVar != "" && id.Name == fn.recvVar && id.Obj != nil && id.Obj.Decl == fd.Recv.List[0]
@@ -118,6 +162,9 @@ func (c *fnCtx) function() {
 					sc.fieldsMut[f] = true
 				}
 			}
+			if oracleAppend(v) != nil {
+				needExtras = append(needExtras, [2]string{"append", "append_"})
+			}
 		case *ast.IncDecStmt:
 			if f := rootField(v.X); f != "" {
 				sc.fieldsMut[f] = true
@@ -131,7 +178,20 @@ func (c *fnCtx) function() {
 				}
 			}
 		case *ast.CallExpr:
+			if k := c.externKey(v); k != "" {
+				needExtras = append(needExtras, [2]string{k, strings.ReplaceAll(k, ".", "_")})
+				for _, a := range v.Args {
+					if f := rootField(a); f != "" {
+						if _, isArr := fieldTypes[f].(*ast.ArrayType); isArr {
+							sc.fieldsMut[f] = true
+						}
+					}
+				}
+			}
 			if cal := c.g.calleeOf(fn, v); cal != nil {
+				for _, e := range cal.extras {
+					needExtras = append(needExtras, [2]string{e.key, e.name})
+				}
 				for _, f := range cal.fields {
 					sc.fieldsUsed[f] = true
 				}
@@ -220,6 +280,9 @@ func (c *fnCtx) function() {
 				p.mutated = u.stored
 			}
 		}
+	}
+	for _, e := range needExtras {
+		c.extra(e[0], e[1])
 	}
 	if sc.needZero {
 		c.zero = c.newVar("zero_"+fn.zeroType, c.elemT[fn.zeroType], "zero")
@@ -520,6 +583,10 @@ func (t *fnType) mentionsT(set map[string]bool) {
 	switch t.k {
 	case "elem":
 		set[t.name] = true
+	case "raw":
+		for _, p := range t.params {
+			p.mentionsT(set)
+		}
 	case "slice":
 		if t.elem.k != "slice" { // a slice of slices is a list of views
 			t.elem.mentionsT(set)
@@ -565,6 +632,9 @@ func (c *fnCtx) sigVars() []*fnVar {
 		if p.v.view != nil {
 			vs = append(vs, p.v.view)
 		}
+	}
+	for _, e := range c.fn.extras {
+		vs = append(vs, c.extras[e.key])
 	}
 	if c.zero != nil {
 		vs = append(vs, c.zero)
@@ -685,6 +755,9 @@ func (c *fnCtx) effects(nodes ...ast.Node) effSet {
 			if v.view != nil {
 				es.r[v.view] = true
 			}
+			if sp := c.fat[v]; sp != nil {
+				es.r[sp] = true
+			}
 		}
 	}
 	wr := func(v *fnVar) {
@@ -727,7 +800,21 @@ func (c *fnCtx) effects(nodes ...ast.Node) effSet {
 					return false
 				}
 			case *ast.CallExpr:
+				if k := c.externKey(v); k != "" {
+					rd(c.extras[k])
+					for _, a := range v.Args {
+						if x := c.plainVar(a); x != nil && x.typ.k == "slice" {
+							wr(x)
+						}
+					}
+				}
+				if id, ok := v.Fun.(*ast.Ident); ok && id.Name == "append" && id.Obj == nil {
+					rd(c.extras["append"])
+				}
 				if cal := c.g.calleeOf(c.fn, v); cal != nil {
+					for _, e := range cal.extras {
+						rd(c.extras[e.key])
+					}
 					for _, f := range cal.fields {
 						rd(c.fields[f])
 					}
